@@ -279,6 +279,25 @@ static void handles(Tape &t, Ctx &ctx) {
         default: { nix::File f2 = f; keep("file-copy", [f2] { f2.blockCount(); }, [f2]() mutable { f2.createBlock("late", "t"); }); break; }
         }
     }
+    // now and then a large number of handles (the library closes the objects that are still open one by one)
+    if (t.chance(12)) {
+        size_t bulk = 60 + t.below(120), taken = 0;
+        for (size_t i = 0; i < bulk; i++) {
+            nix::Block b = p.blk();
+            if (i % 3 == 2) {
+                nix::Section sc = p.sec();
+                nix::Property x = p.prop(sc);
+                if (x) { hs.push_back({"property", [x] { x.values(); }, nullptr}); taken++; }
+                else if (sc) { hs.push_back({"section", [sc] { sc.name(); }, nullptr}); taken++; }
+            } else {
+                nix::DataArray a = b ? (b.dataArrayCount() ? b.getDataArray(t.below(static_cast<uint32_t>(b.dataArrayCount()))) : nix::DataArray()) : nix::DataArray();
+                if (a) { hs.push_back({"array", [a] { a.dataExtent(); }, nullptr}); taken++; }
+                else if (b) { hs.push_back({"block", [b] { b.name(); }, nullptr}); taken++; }
+            }
+        }
+        ctx.trace << " +" << taken << " more handles";
+        if (taken > 64) ctx.count("close_with_more_than_64_handles");
+    }
     ctx.trace << " ] close";
     Ent before = snapshot(f);
     f.close();
